@@ -60,6 +60,45 @@ theorem lockStep_step (rows : List (Inst × State)) (acts : List Nat) (c : Nat) 
         simp [step, stepWith, this]
       · exact ih bs (fun y hy => h y (by simp [hy])) r hr
 
+/-! ### `∀ batch, ∀ row` forms (rows of one batch may have different `num_agents`) -/
+
+/-- one batched step: row `k` of ANY lock-step batch — whatever the numbers of agents, the distances and
+the progress of the other rows — is the row stepped on its own -/
+theorem batch_rows (rows : List (Inst × State)) (acts : List Nat) (c : Nat) (h : LockStep rows c)
+    (k : Nat) (r0 : Inst × State) (a : Nat) (hr : rows[k]? = some r0) (ha : acts[k]? = some a) :
+    (batchStep rows acts)[k]? = some (r0.1, step r0.1 r0.2 a) := by
+  rw [batchStep_eq_map rows acts c h]
+  simp [List.getElem?_zipWith, hr, ha]
+
+/-- the batched episode: all rows are stepped in lock step with the columns of an action matrix -/
+def batchExec (rows : List (Inst × State)) : List (List Nat) → List (Inst × State)
+  | [] => rows
+  | acts :: rest => batchExec (batchStep rows acts) rest
+
+/-- the per-row episodes -/
+def rowsExec (rows : List (Inst × State)) : List (List Nat) → List (Inst × State)
+  | [] => rows
+  | acts :: rest => rowsExec (List.zipWith (fun r a => (r.1, step r.1 r.2 a)) rows acts) rest
+
+/-- **C04 (mTSP), whole episodes: a batched episode is the family of its rows' own episodes**, for every
+batch composition (mixed `num_agents`, sizes of the other rows' remaining work, any amount of padding). -/
+theorem batchExec_eq_rows (actss : List (List Nat)) : ∀ (rows : List (Inst × State)) (c : Nat),
+    LockStep rows c → batchExec rows actss = rowsExec rows actss := by
+  induction actss with
+  | nil => intro rows c _; rfl
+  | cons acts rest ih =>
+    intro rows c h
+    simp only [batchExec, rowsExec]
+    rw [batchStep_eq_map rows acts c h]
+    exact ih _ (c + 1) (lockStep_step rows acts c h)
+
+/-- a batch of freshly reset instances is in lock step -/
+theorem lockStep_reset (insts : List Inst) : LockStep (insts.map (fun i => (i, reset i))) 0 := by
+  intro r hr
+  simp only [List.mem_map] at hr
+  obtain ⟨i, _, rfl⟩ := hr
+  rfl
+
 /-! ### padding part -/
 
 /-- **C04 (mTSP): padding is a no-op.** -/
